@@ -96,6 +96,8 @@ def gen_object_args(rng: random.Random, cls: str) -> dict:
             surveys.append([depth, rng.choice([0.0, 45.0, 270.0]), rng.choice([-90.0, -60.0, -45.0])])
             depth += rng.choice([1.0, 5.0, 10.0])
         args.update(collar=[fval(rng), fval(rng), fval(rng)], surveys=surveys)
+        if rng.random() < 0.4:
+            args["end_of_hole"] = depth + rng.choice([5.0, 20.5])      # (the hole goes on below its last station; given after the surveys)
     return args
 
 
